@@ -357,6 +357,11 @@ Definition near16 (x : Q) (z : Z) : bool :=
   Z.eqb (fixed16 x) z ||
   Qle_bool (Qabs (x * 65536 - inject_Z z)) ((1#2) + (1#1073741824)).
 
+(* instance coordinates go through one more float round trip (design -> user, or design ->
+   normalized -> design -> user); allow 2^-30 on the value before rounding *)
+Definition near16u (x : Q) (z : Z) : bool :=
+  near16 x z || Qle_bool (Qabs (x * 65536 - inject_Z z)) ((1#2) + (1#16384)).
+
 Fixpoint nodes_agree (l : list pt) (z : list zpt) : bool :=
   match l, z with
   | [], [] => true
